@@ -263,9 +263,12 @@ def decode_number(data_raw: int, bit_offset: int, bit_length: int, signed: bool,
     # adjust resolution
     number_int *= resolution
 
-    if number_int < min_value:
+    # raw * resolution is rounded (65532 * 0.1 = 6553.200000000001): allow half a step so that
+    # the exact range ends are not rejected; the neighbouring raw value is a full step away
+    tolerance = abs(resolution) / 2
+    if number_int < min_value - tolerance:
         raise ValueError("Value below minimum allowed")
-    if number_int > max_value:
+    if number_int > max_value + tolerance:
         raise ValueError("Value above maximum allowed")
 
     return number_int
